@@ -292,7 +292,8 @@ theorem facts_at (cls : CClass) (info : CondClassInfo) (c : Ctor) (hinfo : cls.i
     rw [htarget]
     rcases hrest with ⟨htk, hdt, hbase, hpre⟩ | ⟨htk, hdt, hbase, hpsome, hdtype, hcpsome, hcls⟩
     · rw [htk] at htoks
-      rw [parse_front2 fuel _ val _ _ _ cls info c0 (isInst c0.target) hop htoks hdt hpp hbase hcall hinst hinfo
+      rw [parse_front2 fuel _ val _ _ _ (low c0.target) cls info c0 (isInst c0.target) hop htoks hdt hpp hbase
+        (by rw [hcall]; rfl) hinst hinfo
         rfl hfind, hpre]
       simp only [hpt]
       rfl
@@ -301,8 +302,8 @@ theorem facts_at (cls : CClass) (info : CondClassInfo) (c : Ctor) (hinfo : cls.i
       rw [hpre, Option.getD_some] at hdtype hcpsome hcls
       obtain ⟨cp, hcp⟩ := Option.isSome_iff_exists.mp hcpsome
       rw [hcp, Option.getD_some] at hcls
-      rw [parse_front3 fuel _ val _ _ _ _ pre (baseOf cls) cls cp info c0 (info.pre == "type") (isInst c0.target)
-        hop htoks hdt hbase hpre hdtype hcp hcls hcall hinst hinfo rfl hfind]
+      rw [parse_front3 fuel _ val _ _ _ _ pre (low c0.target) (baseOf cls) cls cp info c0 (info.pre == "type")
+        (isInst c0.target) hop htoks hdt hbase hpre hdtype hcp hcls (by rw [hcall]; rfl) hinst hinfo rfl hfind]
       simp only [hpt]
   have hcast : CastAgrees info c := by
     unfold CastAgrees keyOf
